@@ -633,9 +633,14 @@ static LY_ERR
 yin_parse_path(struct lysp_yin_ctx *ctx, struct lysp_type *type)
 {
     LY_ERR ret;
-    const char *str_path;
+    const char *str_path = NULL;
 
-    LY_CHECK_RET(yin_parse_simple_element(ctx, type, LY_STMT_PATH, &str_path, YIN_ARG_VALUE, Y_STR_ARG, &type->exts));
+    ret = yin_parse_simple_element(ctx, type, LY_STMT_PATH, &str_path, YIN_ARG_VALUE, Y_STR_ARG, &type->exts);
+    if (ret) {
+        /* the argument may have been stored already (error in the content of the element) */
+        lydict_remove(ctx->xmlctx->ctx, str_path);
+        return ret;
+    }
 
     ret = ly_path_parse(ctx->xmlctx->ctx, NULL, str_path, 0, 1, LY_PATH_BEGIN_EITHER,
             LY_PATH_PREFIX_OPTIONAL, LY_PATH_PRED_LEAFREF, &type->path);
